@@ -186,6 +186,7 @@ func (prop) Generate(r *core.RNG, tier string) []json.RawMessage {
 	}
 	rules := []string{"plural", "singular"}
 	var out []json.RawMessage
+	preflight(r.Fork(), tier) // race-detector run in a child process, see race.go
 	// fixed corner cases first
 	for _, c := range [][3]string{
 		{"plural", "", ""}, {"singular", "", ""}, {"plural", "", "person"}, {"plural", "my ", "sex"}, {"plural", "old-", "person"},
@@ -206,9 +207,9 @@ func (prop) Generate(r *core.RNG, tier string) []json.RawMessage {
 			}
 		}
 	}
-	n := 1300
+	n := 4000
 	if tier == "thorough" {
-		n = 30000
+		n = 40000
 	}
 	for i := 0; i < n; i++ {
 		rule := core.Pick(r, rules)
@@ -298,6 +299,27 @@ func (prop) Generate(r *core.RNG, tier string) []json.RawMessage {
 					}
 				}
 			}
+			// every prefix of length <= 3 over 9 symbols x short irregular words
+			syms := []string{"a", "B", "1", "_", "-", " ", "\n", "é", "ſ"}
+			var shorts []string
+			for _, it := range sd[rule].items {
+				if len(it.Word) <= 3 && len(shorts) < 4 {
+					shorts = append(shorts, it.Word, strings.ToUpper(it.Word))
+				}
+			}
+			var rec func(prefix string, d int)
+			rec = func(prefix string, d int) {
+				for _, w := range shorts {
+					out = append(out, mk(rule, prefix, w))
+				}
+				if d == 3 {
+					return
+				}
+				for _, c := range syms {
+					rec(prefix+c, d+1)
+				}
+			}
+			rec("", 0)
 			for _, u := range sd[rule].lits {
 				for _, p := range []string{"", "a ", "x-", "a\n"} {
 					out = append(out, mk(rule, p, u), mk(rule, p, strings.ToLower(u)))
@@ -390,7 +412,14 @@ func (prop) Run(in json.RawMessage, _ string) core.Result {
 		}
 		rs := make([]one, 7)
 		var wg sync.WaitGroup
-		for g := 0; g < 6; g++ {
+		if serialize { // the concurrent run already failed: do not crash the harness, call sequentially
+			serialMu.Lock()
+			defer serialMu.Unlock()
+		}
+		for g := 0; g < 6 && serialize; g++ {
+			rs[g].out, rs[g].panicked, rs[g].text = call(f, x)
+		}
+		for g := 0; g < 6 && !serialize; g++ {
 			wg.Add(1)
 			go func(g int) {
 				defer wg.Done()
@@ -419,6 +448,9 @@ func (prop) Run(in json.RawMessage, _ string) core.Result {
 	}
 	if obs.FullPanic {
 		res.GoViolations = append(res.GoViolations, fmt.Sprintf("%s(%q) panics: %s", rule, s, obs.PanicText))
+	}
+	if obs.AlonePanic && !obs.FullPanic {
+		res.GoViolations = append(res.GoViolations, fmt.Sprintf("%s(%q) panics: %s", rule, w, obs.PanicText))
 	}
 	res.Observed = obs
 	res.Coq = fmt.Sprintf("mk_case %s %s %s %s %s", core.CoqBool(rule == "plural"), core.Hex(p), core.Hex(w),
